@@ -451,6 +451,7 @@ impl Property for C08 {
                 "the interactive peer: none (input is a fixed text; ordering is observed at the read calls)".into(),
             ],
             step_unit: "stream calls (read/write/flush) made by the interpreter",
+            history_measure: "distinct sequences of stream events of one execution, by kind (read data / EOF / EINTR / hard error / after-fault, write accepted full / short / EINTR / Ok(0) / hard error / after-fault, flush) with sizes bucketed (0,1,2-3,4-7,8-31,32+)",
         }
     }
 
